@@ -155,13 +155,17 @@ func secWire(h *hctx, r *lib.RNG) {
 				})
 			}
 			mut("proof-nil", func(p *pb.PropellerUnit) { p.MerkleProof = nil })
-			mut("sibling-short", func(p *pb.PropellerUnit) {
-				p.MerkleProof.Siblings[0] = h256(p.MerkleProof.Siblings[0].Elements[:5])
-			})
-			mut("sibling-long", func(p *pb.PropellerUnit) {
-				p.MerkleProof.Siblings[0] = h256(append(append([]byte{}, p.MerkleProof.Siblings[0].Elements...), 1, 2, 3))
-			})
-			mut("sibling-empty", func(p *pb.PropellerUnit) { p.MerkleProof.Siblings[0] = &common.Hash256{} })
+			if len(u.MerkleProof.Siblings) > 0 { // (a tree that returns empty proofs is reported elsewhere)
+				mut("sibling-short", func(p *pb.PropellerUnit) {
+					p.MerkleProof.Siblings[0] = h256(p.MerkleProof.Siblings[0].Elements[:5])
+				})
+				mut("sibling-long", func(p *pb.PropellerUnit) {
+					p.MerkleProof.Siblings[0] = h256(append(append([]byte{}, p.MerkleProof.Siblings[0].Elements...), 1, 2, 3))
+				})
+				mut("sibling-empty", func(p *pb.PropellerUnit) { p.MerkleProof.Siblings[0] = &common.Hash256{} })
+			} else {
+				h.res.Hit("wire:honest-unit-without-siblings")
+			}
 			mut("publisher-nil", func(p *pb.PropellerUnit) { p.Publisher = nil })
 			mut("committee-nil", func(p *pb.PropellerUnit) { p.CommitteeId = nil })
 			mut("committee-short", func(p *pb.PropellerUnit) { p.CommitteeId = h256(p.CommitteeId.Elements[:7]) })
